@@ -133,6 +133,14 @@ Definition dom_et (d : dom) : Z := match d with DLeaf v => et_of v | DEmpty => 0
 
 (* does the API call for key k fit a node of this kind?  (Field: STRUCT; GetByStr: MAP<string,_>; GetByInt: MAP<int,_>;
    an index addresses a slot of Next directly) *)
+(* an index addresses a slot of Next directly: only meaningful (and only generated) for LIST / SET nodes, whose slots are
+   the elements in order; on other containers the slot order is storage detail and the case is outside the domain *)
+Definition index_domain (d : dom) (k : pkey) : bool :=
+  match k with
+  | KIndex _ => (dom_type d =? T_LIST) || (dom_type d =? T_SET)
+  | _ => true
+  end.
+
 Definition kind_fits (d : dom) (k : pkey) : bool :=
   match k with
   | KField _ => dom_type d =? T_STRUCT
@@ -199,6 +207,7 @@ Definition spec_step (defaults ns : bool) (idx : Z) (s : sstate) (o : cop) : ver
         match dom_at (map pkey_of_step p) d with
         | None => (VSkip, s)
         | Some target =>
+          if negb (index_domain target k) then (VSkip, s) else
           if negb (kind_fits target k) then (expect (code + 3) (st =? 2) [FZ 2], s) else
           match dom_get target k with
           | None => (expect (code + 4) (st =? 1) [FZ 1], s)
@@ -222,6 +231,7 @@ Definition spec_step (defaults ns : bool) (idx : Z) (s : sstate) (o : cop) : ver
         match safe_decode t vb, dom_at (map pkey_of_step p) d with
         | Some x, Some target =>
           if negb (wf x && bytes_eqb (encode x) vb && dom_ok_val x) then (VSkip, s) else
+          if negb (index_domain target k) then (VSkip, s) else
           if negb (kind_fits target k) then (expect (code + 8) (st =? 2) [FZ 2], s) else
           if negb (set_typed target k x) then (VSkip, s) else
           match k, dom_get target k with
@@ -239,6 +249,7 @@ Definition spec_step (defaults ns : bool) (idx : Z) (s : sstate) (o : cop) : ver
         match dom_at (map pkey_of_step p) d with
         | None => (VSkip, s)
         | Some target =>
+          if negb (index_domain target k) then (VSkip, s) else
           if negb (kind_fits target k) then (expect (code + 10) (st =? 2) [FZ 2], s) else
           match dom_get target k with
           | None => (expect (code + 11) (st =? 1) [FZ 1], s)
@@ -490,7 +501,7 @@ Definition classify (bits : Z) (hs : list (list Z * Z)) (ops : list cop) (code :
       match find (fun e => let '(q1, q2, q3, q4, q5, q6) := snd e in
                            alone_code bits hs ops (negb q1, negb q2, negb q3, negb q4, negb q5, negb q6) =? 0) cands with
       | Some e => fst e
-      | None => match cands with e :: _ => fst e | [] => 0 end
+      | None => 0      (* no recorded defect explains it: a violation *)
       end
     end
   end.
